@@ -83,6 +83,12 @@ def main(argv=None):
     t0 = time.time()
     ctx = Ctx(pid, args.tier, seed)
     mod = importlib.import_module(f"harness.props.{pid.lower()}")
+    try:   # keep the library's console logger quiet (warnings about empty distributions etc.)
+        from perceval.utils.logging import get_logger, level, channel
+        for ch in (channel.general, channel.user, channel.resources):
+            get_logger().set_level(level.critical, ch)
+    except Exception:
+        pass
 
     if args.replay:
         case = json.load(open(args.replay))
